@@ -275,9 +275,23 @@ structure WState where
   blockStart : Bool := true     -- first_ordinal_of_the_block == num_terms
   lastBlockKey : Option Key := none  -- last_key_or_greater of the last closed block
 
+/-- extracted from the source: `find_shorter_str_in_between` asserts `left < right`, and
+`insert_key` runs it against the last key of the last closed block for the first key of a block -/
+def separatorGuard : Bool :=
+  Gen.SEPARATOR_ASSERT == 1 && Gen.SEPARATOR_CHECK_AT_BLOCK_START == 1
+
+/-- extracted from the source: `insert_key` asserts the modelled `increasing_keys` expression -/
+def increasingGuard : Bool := Gen.INCREASING_KEYS_ASSERT == 1
+
 /-- the assert of find_shorter_str_in_between, reached only for the first key of a block -/
 def WState.sepOk (s : WState) (k : Key) : Bool :=
-  if s.blockStart then (match s.lastBlockKey with | some l => lexLt l k | none => true) else true
+  if s.blockStart && separatorGuard then
+    (match s.lastBlockKey with | some l => lexLt l k | none => true)
+  else true
+
+/-- the assert on `increasing_keys` -/
+def incOk (prev k : Key) : Bool :=
+  if increasingGuard then decide (increasingKeys prev k = some true) else true
 
 /-- state after an accepted key: the block is closed iff its key bytes exceed `blockLen` -/
 def WState.next (blockLen : Nat) (s : WState) (k : Key) : WState :=
@@ -290,7 +304,7 @@ def WState.next (blockLen : Nat) (s : WState) (k : Key) : WState :=
 /-- one `Writer::insert`; `none` = panic (assert of insert_key, or the assert of
 find_shorter_str_in_between at a block start) -/
 def WState.insert (blockLen : Nat) (s : WState) (k : Key) : Option WState :=
-  if s.sepOk k = true ∧ increasingKeys s.prev k = some true then some (s.next blockLen k) else none
+  if s.sepOk k = true ∧ incOk s.prev k = true then some (s.next blockLen k) else none
 
 /-- index of the first rejected key, `none` if the whole sequence is accepted -/
 def firstRejected (blockLen : Nat) : WState → List Key → Nat → Option Nat
@@ -342,5 +356,50 @@ def Dict.sortedOrdsToTerm {V} (d : Dict V) : List Nat → List Key × Bool
     | some e =>
       let r := d.sortedOrdsGo be.1 be.2 o e.1 rest
       (e.1 :: r.1, r.2)
+
+end TantivyModel.SSTable
+
+namespace TantivyModel.SSTable
+
+/-- the blocks the writer closes, driven by the same state that performs the order checks
+(`cur` = keys of the open block). mirrors: Writer::insert → flush_block_if_required / finish -/
+def writerBlocks (blockLen : Nat) : WState → List Key → List Key → List (List Key)
+  | _, cur, [] => if cur.isEmpty then [] else [cur]
+  | s, cur, k :: ks =>
+    if (s.next blockLen k).blockStart then (cur ++ [k]) :: writerBlocks blockLen (s.next blockLen k) [] ks
+    else writerBlocks blockLen (s.next blockLen k) (cur ++ [k]) ks
+
+end TantivyModel.SSTable
+
+namespace TantivyModel.SSTable
+
+inductive OrdBound where
+  | unbounded
+  | incl (o : Nat)
+  | excl (o : Nat)
+  deriving DecidableEq, Repr
+
+def OrdBound.lo : OrdBound → Nat → Bool
+  | .unbounded, _ => true
+  | .incl o, i => decide (o ≤ i)
+  | .excl o, i => decide (o < i)
+
+def OrdBound.hi : OrdBound → Nat → Bool
+  | .unbounded, _ => true
+  | .incl o, i => decide (i ≤ o)
+  | .excl o, i => decide (i < o)
+
+/-- mirrors: Dictionary::term_bounds_to_ord (+ common::bounds::transform_bound_inner_res): an exact
+hit keeps the bound kind; a miss becomes `Included(next)` for the lower and `Excluded(next)` for
+the upper bound -/
+def Dict.termBoundsToOrd {V} (d : Dict V) (lo hi : Bound) : OrdBound × OrdBound :=
+  ((match lo with
+    | .unbounded => .unbounded
+    | .incl k => (match d.termOrdOrNext k with | .exact o => .incl o | .next o => .incl o)
+    | .excl k => (match d.termOrdOrNext k with | .exact o => .excl o | .next o => .incl o)),
+   (match hi with
+    | .unbounded => .unbounded
+    | .incl k => (match d.termOrdOrNext k with | .exact o => .incl o | .next o => .excl o)
+    | .excl k => (match d.termOrdOrNext k with | .exact o => .excl o | .next o => .excl o)))
 
 end TantivyModel.SSTable
